@@ -9,7 +9,7 @@ VERIF = os.path.dirname(os.path.dirname(os.path.abspath(__file__)))
 
 T = {
  "C01": dict(
-  technique="property-based testing (Hypothesis grammar of definitions) + corpus sweep against a reference acceptor",
+  technique="property-based testing (Hypothesis grammar of definitions) + corpus sweep + coverage-guided stage (atheris/libFuzzer driving the same strategy) against a reference acceptor",
   text="Generated search: block-structured definitions of fragment F and the 63 corpus definitions are executed by a reference semantics into job sets, the real learner is run under a step-bound watchdog and every input job is checked for membership in the emitted diagram with a backtracking reference acceptor. Evidence of absence only up to the generated sizes; families of genuine defects are excluded by input predicates listed in known_findings.json.",
   note="Trusted: vlib/pumlsem.py (reference semantics, self-tested against the corpus), the janus stand-in shim/test_event_generator (validated by upstream tests), monkeypatched uuid4 for replayability.",
   ref="5 C01, 6"),
@@ -29,7 +29,7 @@ T = {
   note="Trusted: reference acceptor; model equality compares sets of counted multisets.",
   ref="5 C04"),
  "C05": dict(
-  technique="property-based testing with a strict validator of the emitted dialect",
+  technique="property-based testing + coverage-guided stage (atheris/libFuzzer driving the same strategy) with a strict validator of the emitted dialect",
   text="Every emitted text for generated/corpus job sets is parsed by an unforgiving stack-discipline validator and its event names compared with the input types; placeholders must not leak.",
   note="Trusted: the strict validator (vlib/pumlstrict.py).",
   ref="5 C05"),
@@ -129,7 +129,7 @@ def main():
         "engines": [{
             "name": "verif-pbt", "path": "check",
             "serves_properties": [c["property_id"] for c in checks],
-            "kind_free_text": "Hypothesis 6.168 strategies + complete "
+            "kind_free_text": "Hypothesis 6.168 strategies (+ atheris 3.1 coverage-guided stage for C01/C05) + complete "
             "enumeration of small finite domains, sharded over 16 worker "
             "processes, explicit oracles (reference models / metamorphic "
             "relations), replay files, known_findings.json",
